@@ -3,6 +3,10 @@
 //! records what it saw (`rt` events). Whole files go through the real `adlt convert -o` binary (`fmsg` / `fend`).
 //! The parsed message is also written through the public DltStandardHeader::to_write directly WITH its ECU id and / or a session
 //! id in the standard header (DltMessage::to_write never asks for them), re-read and exported again (`wx` entries).
+//! Every write path (DltMessage::to_write, DltStandardHeader::to_write in all its header forms; the storage-header writer is part of
+//! the former) additionally writes into destination writers with other LEGAL behaviours of std::io::Write (`Dest`): at most k bytes
+//! per call, ErrorKind::Interrupted now and then, an error after n accepted bytes, a BufWriter of small capacity (`ww` entries:
+//! what arrived at the destination against the bytes the same call wrote into a Vec - byte equality only).
 //! No expectation is computed here: the contract (spec/LayoutTrace.tla) recomputes everything from the logged
 //! ORIGINAL fields. The only comparison done here is byte equality (second write == first write, files identical).
 use adlt::dlt::{parse_dlt_with_storage_header, DltMessage, DltStandardHeader};
@@ -197,6 +201,124 @@ fn write_ev(m: &DltMessage) -> Result<(bool, Vec<u8>), String> {
     }))
 }
 
+// ------------------------------------------------------------------------------------------------ destination writers
+/// a destination with a legal but unfriendly std::io::Write behaviour; `got` = the bytes that arrived
+struct Dest {
+    got: Vec<u8>,
+    chunk: usize,      // accepts at most this many bytes per call
+    limit: usize,      // accepts this many bytes in total, then every call fails (usize::MAX: never)
+    intr_every: usize, // every n-th call returns ErrorKind::Interrupted without taking anything (0: never)
+    calls: usize,
+}
+impl Dest {
+    fn new(chunk: usize, limit: usize, intr_every: usize) -> Dest {
+        Dest { got: Vec::new(), chunk, limit, intr_every, calls: 0 }
+    }
+}
+impl std::io::Write for Dest {
+    fn write(&mut self, buf: &[u8]) -> std::io::Result<usize> {
+        self.calls += 1;
+        if self.intr_every > 0 && self.calls % self.intr_every == 0 {
+            return Err(std::io::Error::new(std::io::ErrorKind::Interrupted, "interrupted"));
+        }
+        if buf.is_empty() {
+            return Ok(0);
+        }
+        if self.got.len() >= self.limit {
+            return Err(std::io::Error::new(std::io::ErrorKind::Other, "destination full"));
+        }
+        let n = buf.len().min(self.chunk).min(self.limit - self.got.len());
+        self.got.extend_from_slice(&buf[..n]);
+        Ok(n)
+    }
+    fn flush(&mut self) -> std::io::Result<()> {
+        Ok(())
+    }
+}
+const NO_LIMIT: usize = 99_999_999;
+
+/// one write path: the parsed message through DltMessage::to_write ("msg") or through DltStandardHeader::to_write with the ECU id /
+/// session id asked for ("std")
+#[derive(Clone, Copy)]
+struct Path {
+    std: bool,
+    we: bool,
+    ws: bool,
+}
+fn write_path(m1: &DltMessage, p: Path, sid: u32, w: &mut impl std::io::Write) -> std::io::Result<()> {
+    if p.std {
+        let ts = if m1.standard_header.has_timestamp() { Some(m1.timestamp_dms) } else { None };
+        DltStandardHeader::to_write(w, &m1.standard_header, &m1.extended_header, if p.we { Some(m1.ecu) } else { None },
+                                    if p.ws { Some(sid) } else { None }, ts, &m1.payload)
+    } else {
+        m1.to_write(w)
+    }
+}
+/// the write paths of one message into unfriendly destinations; `rot` rotates the writer parameters so that every (path, writer)
+/// combination is exercised across the run
+fn write_dests(m1: &DltMessage, o: &Orig, rot: u64) -> Result<Vec<Value>, String> {
+    let mut out = Vec::new();
+    let mut rot = rot as usize;
+    let paths = [Path { std: false, we: false, ws: false }, Path { std: true, we: false, ws: false }, Path { std: true, we: true, ws: false },
+                 Path { std: true, we: false, ws: true }, Path { std: true, we: true, ws: true }];
+    for p in paths {
+        let len_x = 4 + 4 * p.we as usize + 4 * p.ws as usize + 4 * o.wtms as usize + 10 * o.ueh as usize + o.payload.len();
+        if p.std && len_x > 65535 {
+            continue; // the longer header does not fit the len field
+        }
+        // reference: the same call into a Vec
+        let (rok, reference) = catch(std::panic::AssertUnwindSafe(|| {
+            let mut v = Vec::new();
+            let ok = write_path(m1, p, o.sid, &mut v).is_ok();
+            (ok, v)
+        }))?;
+        if !rok {
+            continue;
+        }
+        let total = reference.len();
+        let chunks: [usize; 4] = [1, 7, 512, 4096];
+        let mut k = chunks[rot % 4];
+        if k == 1 && total > 8192 {
+            k = 7;
+        }
+        let limits = [0usize, 3, 16, 17, 20, total / 2, total.saturating_sub(1), total, total + 1];
+        let limit = limits[(rot / 4) % limits.len()];
+        let mut run = |name: &str, kk: usize, lim: usize, f: &dyn Fn() -> (bool, Vec<u8>)| -> Result<(), String> {
+            let (ok, got) = catch(std::panic::AssertUnwindSafe(f))?;
+            out.push(json!({"path": if p.std { "std" } else { "msg" }, "weid": p.we, "wsid": p.ws, "writer": name, "k": kk, "limit": lim,
+                            "ok": ok, "ref_len": total, "arrived": got.len(), "equal": got == reference,
+                            "prefix": got.len() <= total && got[..] == reference[..got.len()]}));
+            Ok(())
+        };
+        let direct = |mut d: Dest| -> (bool, Vec<u8>) {
+            let ok = write_path(m1, p, o.sid, &mut d).is_ok();
+            (ok, d.got)
+        };
+        run("chunk", k, NO_LIMIT, &|| direct(Dest::new(k, NO_LIMIT, 0)))?;
+        run("fail", 4096, limit, &|| direct(Dest::new(if rot % 2 == 0 { 4096 } else { NO_LIMIT }, limit, 0)))?;
+        match rot % 4 {
+            0 => run("intr", 1000, NO_LIMIT, &|| direct(Dest::new(1000, NO_LIMIT, 2)))?,
+            1 => run("intr", 5, NO_LIMIT, &|| direct(Dest::new(if total > 8192 { 700 } else { 5 }, NO_LIMIT, 3)))?,
+            _ => {
+                // a BufWriter of small capacity in front of a Vec-like / a chunked destination
+                let cap = [5usize, 64][rot / 4 % 2];
+                let inner_chunk = if rot % 4 == 2 { NO_LIMIT } else { 7 };
+                run("buf", cap, NO_LIMIT, &|| {
+                    use std::io::Write;
+                    let mut b = std::io::BufWriter::with_capacity(cap, Dest::new(inner_chunk, NO_LIMIT, 0));
+                    let ok = write_path(m1, p, o.sid, &mut b).is_ok() && b.flush().is_ok();
+                    match b.into_inner() {
+                        Ok(d) => (ok, d.got),
+                        Err(_) => (false, Vec::new()),
+                    }
+                })?;
+            }
+        }
+        rot += 5;
+    }
+    Ok(out)
+}
+
 /// the parsed message behind the storage header of `w1`, written by DltStandardHeader::to_write with the ECU id (we) and / or a
 /// session id (ws) in the standard header; then parsed and exported again. Only called when the longer header fits the len field.
 fn write_x(m1: &DltMessage, w1: &[u8], we: bool, ws: bool, sid: u32) -> Result<Value, String> {
@@ -228,7 +350,7 @@ fn run_rt(t: &mut Trace, case: u64, o: &Orig, src: &str) {
         let (p1, m1) = parse_ev(&bytes)?;
         let m1 = match m1 {
             Some(m) => m,
-            None => return Ok(json!({"ev":"rt","m":o.json(),"p1":p1,"w1":not_w,"p2":not_p,"w2":{"ok":false,"equal":false},"wx":Vec::<Value>::new()})),
+            None => return Ok(json!({"ev":"rt","m":o.json(),"p1":p1,"w1":not_w,"p2":not_p,"w2":{"ok":false,"equal":false},"wx":Vec::<Value>::new(),"ww":Vec::<Value>::new()})),
         };
         let (ok1, w1) = write_ev(&m1)?;
         let w1j = json!({"ok":ok1,"bytes":w1.len(),"htyp": w1.get(16).copied().unwrap_or(0),
@@ -249,7 +371,8 @@ fn run_rt(t: &mut Trace, case: u64, o: &Orig, src: &str) {
                 wx.push(write_x(&m1, &w1, we, ws, o.sid)?);
             }
         }
-        Ok(json!({"ev":"rt","m":o.json(),"p1":p1,"w1":w1j,"p2":p2,"w2":w2j,"wx":wx}))
+        let ww = if ok1 { write_dests(&m1, o, case)? } else { Vec::new() };
+        Ok(json!({"ev":"rt","m":o.json(),"p1":p1,"w1":w1j,"p2":p2,"w2":w2j,"wx":wx,"ww":ww}))
     })();
     match r {
         Ok(e) => t.ev(e),
